@@ -13,7 +13,8 @@
 From Coq Require Import ZArith List Bool Lia.
 Import ListNotations.
 Require Import Grist.Model.SchemaSync Grist.Proofs.SchemaSync_spec Grist.Proofs.SchemaSync_steps
-               Grist.Proofs.SchemaSync_proofs Grist.Proofs.SchemaSync_main.
+               Grist.Proofs.SchemaSync_proofs Grist.Proofs.SchemaSync_main
+               Grist.Model.SchemaCode GristGen.SchemaSync_gen Grist.Proofs.SchemaSync_bridge.
 Open Scope Z_scope.
 
 (* The invariant is the property: the engine schema is what build_schema gives on the metadata, and there is no
@@ -110,3 +111,62 @@ Proof.
   intros [_ [_ [_ [_ [_ [sch [Hb He]]]]]]]. vm_compute in Hb. inversion Hb; subst sch; clear Hb.
   specialize (He [85]). vm_compute in He. specialize (He [75]). vm_compute in He. discriminate He.
 Qed.
+
+(* ---- the code itself: regenerated from /repo on every run (GristGen.SchemaSync_gen, translated by harness/sm2v.py
+   from schema.py and docactions.py) and bridged pointwise to the model ---- *)
+Theorem C08_bridge_build_schema : forall base ts cs,
+  build_schema_gen base ts cs = build_schema base {| m_tables := ts; m_cols := cs |}.
+Proof. exact build_schema_bridge. Qed.
+
+Theorem C08_bridge_col_to_dict : forall c i,
+  col_to_dict_gen (c, i) false true =
+  {| d_type := Some (ci_type i); d_isf := Some (ci_isf i); d_formula := Some (ci_formula i); d_rev := Some (ci_rev i);
+     d_id := None |}.
+Proof. exact col_to_dict_bridge. Qed.
+
+Theorem C08_bridge_modify_column : forall t c p (s : schema) (cols : scols) old,
+  od_get t s = Some cols -> od_get c cols = Some old ->
+  apply_s (SModifyColumn t c p) s =
+  Ok (match modify_column_gen cols c p with Some (cols', _) => od_set t cols' s | None => s end) /\
+  modify_column_gen cols c p =
+  (if colinfo_eqb (patch_info p old) old then None
+   else Some (od_set c (patch_info p old) (od_del c cols), cdict_of_patch (undo_patch old p))).
+Proof.
+  intros t c p s cols old Ht Hc. split; [exact (modify_column_apply_s t c p s cols old Ht Hc) | exact (modify_column_bridge cols c p old Hc)].
+Qed.
+
+Theorem C08_bridge_add_column : forall t c i (s : schema) (cols : scols), od_get t s = Some cols -> od_get c cols = None ->
+  apply_s (SAddColumn t c i) s = Ok (add_column_gen s t c i).
+Proof. exact add_column_bridge. Qed.
+Theorem C08_bridge_remove_column : forall t c (s : schema) (cols : scols) i, od_get t s = Some cols -> od_get c cols = Some i ->
+  apply_s (SRemoveColumn t c) s = Ok (remove_column_gen s t c).
+Proof. exact remove_column_bridge. Qed.
+Theorem C08_bridge_rename_column : forall t c c' (s : schema) (cols : scols) i d,
+  od_get t s = Some cols -> od_get c cols = Some i -> od_get c' cols = None ->
+  apply_s (SRenameColumn t c c') s = Ok (od_set t (rename_column_gen s t c c' d) s).
+Proof. exact rename_column_bridge. Qed.
+Theorem C08_bridge_add_table : forall t cols (s : schema), od_get t s = None -> apply_s (SAddTable t cols) s = Ok (add_table_gen s t cols).
+Proof. exact add_table_bridge. Qed.
+Theorem C08_bridge_remove_table : forall t (s : schema) (cols : scols), od_get t s = Some cols ->
+  apply_s (SRemoveTable t) s = Ok (remove_table_gen s t).
+Proof. exact remove_table_bridge. Qed.
+Theorem C08_bridge_rename_table : forall t t' (s : schema) (cols : scols), od_get t s = Some cols -> od_get t' s = None ->
+  apply_s (SRenameTable t t') s = Ok (rename_table_gen s t t').
+Proof. exact rename_table_bridge. Qed.
+
+(* the property, about the regenerated build_schema: in every reachable state the engine schema is what the code's
+   build_schema gives on the metadata *)
+Theorem C08_code_reachable : forall base ops s, reach ops (empty_doc base) = Ok s ->
+  exists sch, build_schema_gen base (m_tables (st_meta s)) (m_cols (st_meta s)) = Ok sch /\ schema_equiv (st_schema s) sch.
+Proof.
+  intros base ops s H. destruct (C08_inv_is_the_property base s (C08_reachable base ops s H)) as [[sch [Hb He]] _].
+  exists sch. split; [|exact He]. rewrite C08_bridge_build_schema. destruct (st_meta s). exact Hb.
+Qed.
+
+(* the undo action the code builds for ModifyColumn restores the column (rollback and undo rely on it): applying the
+   regenerated ModifyColumn with the regenerated undo col_info gives back the old column dict *)
+Theorem C08_code_modify_undo_restores : forall (cols : scols) c p old cols' undo, od_get c cols = Some old ->
+  modify_column_gen cols c p = Some (cols', undo) ->
+  forall k, od_get k (match modify_column_gen cols' c (patch_of_cdict undo) with Some (cols'', _) => cols'' | None => cols' end)
+            = od_get k cols.
+Proof. exact modify_undo_restores. Qed.
